@@ -1,5 +1,6 @@
 import WM.Props.C01
 import WM.Props.C01Cursor
+import WM.Props.C01Multi
 import WM.Lemmas.SearchTopK
 import WM.Lemmas.LengthByte
 import WM.Lemmas.SearchLayout
@@ -56,6 +57,24 @@ theorem collector_independent (ls : LeafScore) (so so' : ShapeOracle) (hso : Val
   show (rankAll ls q idx).Perm (runFrom ls so ⟨nc, true⟩ q 0 idx)
   rw [h1]
   exact rankAll_perm ls q idx
+
+/-- **Scores through the top searcher.**  `Term.matcher(top searcher)` - the `MultiMatcher` that
+    `Searcher.postings` builds over the segments' posting readers, each with its own per-segment scorer, under
+    the boost wrapper (`WM.Compile.topTerm`) - is a well-formed cursor whose `(id, score)` list is exactly the
+    specified `hits`: every live document of the whole index containing the term, in global document
+    numbers, with `scoreOf` of that document (leaf score x query boost) - the same list the
+    segment-by-segment collectors produce (`collector_independent`), whatever the segment layout.
+    (Composition of `WM.C01.term_top` with `collector_independent`.) -/
+theorem term_top_scores (ls : LeafScore) (so : ShapeOracle) (hso : ValidOracle so) (idx : Index)
+    (hok : IndexOK ls idx) (f : String) (t : Term) (b : Rat) (hq : PosQ (.term f t b)) :
+    WM.Matcher.WF (topTerm ls idx f t b).1 (topTerm ls idx f t b).2 ∧
+    toPL (topTerm ls idx f t b).den = hits ls (.term f t b) idx := by
+  obtain ⟨h1, h2, -⟩ := WM.C01.term_top ls so hso idx hok f t b hq ⟨false, true⟩
+  exact ⟨h1, h2.trans (collector_independent ls so so hso hso idx hok (.term f t b) hq false false).2.1⟩
+
+example : toPL (topTerm freqLeaf WM.C01.exIdx "t" [97] 2).den = [⟨1, 4⟩, ⟨3, 2⟩] ∧
+    hits freqLeaf (.term "t" [97] 2) WM.C01.exIdx = [⟨1, 4⟩, ⟨3, 2⟩] ∧ PosQ (.term "t" [97] 2) :=
+  ⟨by decide +kernel, by decide +kernel, posQ_of_posQuery _ (by decide)⟩
 
 /-! a concrete instance (shared with C01): scores under `Frequency` -/
 
